@@ -1,9 +1,26 @@
 package dissect
 
-import "unicode"
+// lowerByte lowers an ASCII letter and leaves every other byte alone, so the
+// bytes of a multi-byte UTF-8 sequence are never altered
+func lowerByte(c byte) byte {
+	if 'A' <= c && c <= 'Z' {
+		return c + ('a' - 'A')
+	}
+	return c
+}
 
-// Finds case-insensitive index of second string
-// ASSUMES second string is already lowered (optimization)
+// lowerASCII applies lowerByte to every byte; it is the lowering that
+// indexIgnoreCase expects of its second argument
+func lowerASCII(s string) string {
+	b := []byte(s)
+	for i := range b {
+		b[i] = lowerByte(b[i])
+	}
+	return string(b)
+}
+
+// Finds case-insensitive (ASCII letters) index of second string
+// ASSUMES second string is already lowered with lowerASCII (optimization)
 func indexIgnoreCase(s, loweredSubstr string) int {
 	n := len(loweredSubstr)
 	switch {
@@ -13,7 +30,7 @@ func indexIgnoreCase(s, loweredSubstr string) int {
 		return -1
 	case len(s) == n:
 		for i := 0; i < n; i++ {
-			if unicode.ToLower(rune(s[i])) != rune(loweredSubstr[i]) {
+			if lowerByte(s[i]) != loweredSubstr[i] {
 				return -1
 			}
 		}
@@ -22,7 +39,7 @@ func indexIgnoreCase(s, loweredSubstr string) int {
 		for i := 0; i <= len(s)-n; i++ {
 			match := true
 			for j := 0; j < n; j++ {
-				if unicode.ToLower(rune(s[i+j])) != rune(loweredSubstr[j]) {
+				if lowerByte(s[i+j]) != loweredSubstr[j] {
 					match = false
 					break
 				}
